@@ -566,6 +566,9 @@ type gen struct {
 }
 
 func (g *gen) small() *big.Int {
+	if g.r.Intn(12) == 0 {
+		return big.NewInt(int64(32*(1+g.r.Intn(4)) - 1 - g.r.Intn(2))) // last / last-but-one byte of a memory word
+	}
 	switch g.r.Intn(6) {
 	case 0:
 		return big.NewInt(0)
